@@ -335,6 +335,46 @@ var contexts = []struct{ pre, post string }{
 	{`   `, "\n"},             // surrounding whitespace (trimmed before computing the flags)
 }
 
+// ---- byte sweep: every byte value at every position of small documents that have white space in every kind of gap
+
+var sweepSkeletons = []string{
+	`[1, 2]`, `[ 1 ,2 ]`, "[1,\n2]", `{"a": 1}`, `{"a" :1 , "b": 2}`, "{\n\t\"a\": [ ],\r\n\"b\": { } }", ` 1 `, "\t\"s\"\n", `[true, false , null]`,
+	`[1.5e3, -0]`, `{"k":"v"}`, `[[ ], { }]`, `"a b"`, `[ "x" , "y" ]`, ` [ ] `, ` { } `, `[1,2]`, `{"a":{"b":[1, 2]}}`, "1 2", "[1] [2]", `{"a":1} {"b":2}`,
+}
+
+func byteSweep(c *explore.Ctx) {
+	sk := []byte(sweepSkeletons[c.Choose(len(sweepSkeletons))])
+	insert := c.Bool()
+	var cnt, valid int64
+	buf := make([]byte, 0, len(sk)+1)
+	last := len(sk)
+	if insert {
+		last++
+	}
+	for pos := 0; pos < last; pos++ {
+		for v := 0; v < 256; v++ {
+			if insert {
+				buf = append(append(append(buf[:0], sk[:pos]...), byte(v)), sk[pos:]...)
+			} else {
+				buf = append(buf[:0], sk...)
+				buf[pos] = byte(v)
+			}
+			cnt++
+			if checkValid(c, "byte-sweep", buf) {
+				valid++
+			}
+			consumers(c, buf)
+		}
+	}
+	c.Inner(cnt)
+	c.NontrivialStr("sweep", string(sk), fmt.Sprint(insert))
+	c.Count("valid_documents", valid)
+	c.Outcome(fmt.Sprintf("insert=%v", insert))
+	if c.WantSample() || c.Failed() {
+		c.Case(map[string]any{"skeleton": string(sk), "mode": map[bool]string{true: "insert", false: "replace"}[insert], "documents": cnt, "valid": valid})
+	}
+}
+
 func stringSweep(c *explore.Ctx) {
 	maxBody := 40
 	if c.Thorough() {
@@ -588,6 +628,7 @@ func Spec() *explore.Spec {
 		Families: []*explore.Family{
 			{Name: "byte-strings", ShardDepth: 3, Body: byteStrings, Doc: "all byte strings up to length 6 (quick) / 7 (thorough) over a 27-byte class alphabet; every syntax-only consumer on all strings up to length 4 / 5"},
 			{Name: "token-strings", ShardDepth: 3, Body: tokenStrings, Doc: "all token sequences up to 6 / 8 over 16 tokens; consumers up to 4 / 5"},
+			{Name: "byte-sweep", ShardDepth: 2, Body: byteSweep, Doc: "21 small documents and streams with white space in every kind of gap: every byte value 0..255 substituted at, and inserted before, every position (and appended); Valid and every syntax-only consumer compared with encoding/json on each"},
 			{Name: "string-sweep", ShardDepth: 2, Body: stringSweep, Doc: "string body length 0..40/72 x every position x all 256 byte values x 5 input-wide contexts; escapes at every position"},
 			{Name: "unicode-escapes", ShardDepth: 2, Body: unicodeEscapes, Doc: "\\uXXXX with every pair of hex-digit classes at every digit position, at every offset 0..18"},
 			{Name: "numbers", ShardDepth: 3, Body: numbers, Doc: "all strings up to length 6 over {- + 0 1 9 . e E} in 4 contexts"},
